@@ -172,6 +172,8 @@ Definition has_all_prime_factors (d : dict) : res bool :=
   else if existsb (fun b => b) found then Err EValue
   else Ok false.
 
+Definition private_without_d : list string := ["p"; "q"; "dp"; "dq"; "qi"; "oth"]%string.
+
 Section Import.
 Variable O : oracles.
 
@@ -195,6 +197,8 @@ Definition import_rsa (d : dict) : res native :=
       do m <- o_rsa_complete O n e dd;
       if o_rsa_prv O m then Ok (NRsaPrv m) else Err EValue
   else
+    (* import_public_key: a private parameter without "d" is refused *)
+    if existsb (has d) private_without_d then Err EValue else
     do e <- dec_int d "e";
     do n <- dec_int d "n";
     if o_rsa_pub O n e then Ok (NRsaPub {| r_n := n; r_e := e |}) else Err EValue.
@@ -218,8 +222,9 @@ Definition import_okp (d : dict) : res native :=
   if negb (okp_known crv) then Err EValue else     (* obj["crv"] not in PRIVATE/PUBLIC_KEYS_MAP *)
   if has d "d" then
     do dd <- dec_oct d "d";
-    do x <- o_okp_prv O crv dd;                    (* "x" of the dict is not looked at *)
-    Ok (NOkpPrv crv x dd)
+    do x <- o_okp_prv O crv dd;                    (* from_private_bytes(d), its public bytes *)
+    do xg <- dec_oct d "x";                        (* "x" must decode ... *)
+    if beqb x xg then Ok (NOkpPrv crv x dd) else Err EValue   (* ... and be the public key of "d" *)
   else
     do x <- dec_oct d "x";
     if o_okp_pub O crv x then Ok (NOkpPub crv x) else Err EValue.
